@@ -52,6 +52,38 @@ pub enum Op {
     RoRemove(usize, Hx),
     /// raw write relative to the view's window: which position, suffix, value
     Raw(usize, RawPos, Hx, Hx),
+    /// many entries at once: `n` keys (from position `from` of the enumeration of all strings over
+    /// {0x00, 0x61, 0xFF} up to length 4, so that keys are prefixes of each other) set through one view
+    Fill(usize, usize, usize),
+    /// several operations through ONE view object (read-only or mutable), each judged like a single one
+    Session(usize, bool, Vec<Step>),
+}
+
+#[derive(Clone, Debug, Serialize, Deserialize)]
+pub enum Step {
+    Get(Hx),
+    Set(Hx, Hx),
+    Remove(Hx),
+    Range(Option<Hx>, Option<Hx>, bool),
+}
+
+/// all strings over {0x00, 0x61, 0xFF} of length 0..=4, shortest first (121 keys)
+fn small_keys() -> Vec<Vec<u8>> {
+    let mut out: Vec<Vec<u8>> = vec![vec![]];
+    let mut level: Vec<Vec<u8>> = vec![vec![]];
+    for _ in 0..4 {
+        let mut next = vec![];
+        for k in &level {
+            for b in [0x00u8, 0x61, 0xFF] {
+                let mut x = k.clone();
+                x.push(b);
+                next.push(x);
+            }
+        }
+        out.extend(next.iter().cloned());
+        level = next;
+    }
+    out
 }
 
 #[derive(Clone, Debug, Serialize, Deserialize)]
@@ -362,7 +394,7 @@ impl Check for PrefixCheck {
         Spec {
             id: "C07",
             level: "exploration",
-            rule: "generated: two related namespace paths (0-4 segments from an adversarial pool incl. empty, 00/FF, foo/fo/food, a segment spelling another's length prefix, all-FF of length 1-3/255/256/65535; second path is child/parent/sibling/merged/identical/unrelated), raw keys written inside, just below, just above and around each window, then get/set/remove/range through read-only and mutable views from App::prefixed_*storage*; every result compared with the window of a reference BTreeMap of raw keys under an independently written length-prefix encoding. Non-trivial: a range returning >=1 entry on a view while the base holds raw keys both below and above the window that share a byte prefix with it, or a range on a view whose encoded prefix ends in 0xFF; distinct = distinct serialised case",
+            rule: "generated: two related namespace paths (0-4 segments from an adversarial pool incl. empty, 00/FF, foo/fo/food, a segment spelling another's length prefix, all-FF of length 1-3/255/256/65535; second path is child/parent/sibling/merged/identical/unrelated), raw keys written inside, just below, just above and around each window, then get/set/remove/range through read-only and mutable views from App::prefixed_*storage*; every result compared with the window of a reference BTreeMap of raw keys under an independently written length-prefix encoding. Non-trivial: a range returning >=1 entry on a view while the base holds raw keys both below and above the window that share a byte prefix with it, or a range on a view whose encoded prefix ends in 0xFF; distinct = distinct serialised case Also: Fill (31-100 keys over {00,61,FF} up to length 4, prefixes of each other, set through one view object and scanned) and Session (3-8 get/set/remove/range steps, inverted bounds included, through ONE view object, read-only or mutable)",
             assumptions: vec![
                 "segments longer than 65535 bytes are outside the domain (documented panic)",
                 "values are non-empty (an empty value is only used to check that a view passes the base store's refusal on)",
@@ -393,7 +425,7 @@ impl Check for PrefixCheck {
                 break;
             }
             let v = g.below(2);
-            let op = match g.weighted(&[6, 5, 3, 8, 1, 1, 7]) {
+            let op = match g.weighted(&[6, 5, 3, 8, 1, 1, 7, 1, 3]) {
                 0 => {
                     let k = if !keys.is_empty() && g.chance(1, 2) { g.pick_ref(&keys).clone() } else { gen_key(g) };
                     keys.push(k.clone());
@@ -414,6 +446,32 @@ impl Check for PrefixCheck {
                     end: gen_bound(g, &keys),
                     desc: g.bool(),
                 },
+                7 => {
+                    let n = g.pick(&[31usize, 32, 33, 34, 40, 64, 65, 81, 100]);
+                    let all = small_keys();
+                    let from = g.below(all.len() - n + 1);
+                    keys.extend(all[from..from + n].iter().step_by(7).cloned());
+                    Op::Fill(v, n, from)
+                }
+                8 => {
+                    let ro = g.chance(1, 3);
+                    let n = 3 + g.below(6);
+                    let steps = (0..n)
+                        .map(|_| {
+                            let k = if !keys.is_empty() && g.chance(2, 3) { g.pick_ref(&keys).clone() } else { gen_key(g) };
+                            match g.weighted(&[3, if ro { 0 } else { 3 }, if ro { 0 } else { 2 }, 6]) {
+                                0 => Step::Get(Hx(k)),
+                                1 => {
+                                    keys.push(k.clone());
+                                    Step::Set(Hx(k), Hx(gen_val(g)))
+                                }
+                                2 => Step::Remove(Hx(k)),
+                                _ => Step::Range(gen_bound(g, &keys), gen_bound(g, &keys), g.bool()),
+                            }
+                        })
+                        .collect();
+                    Op::Session(v, ro, steps)
+                }
                 4 => Op::RoSet(v, Hx(gen_key(g)), Hx(gen_val(g))),
                 5 => Op::RoRemove(v, Hx(if !keys.is_empty() { g.pick_ref(&keys).clone() } else { gen_key(g) })),
                 _ => {
@@ -508,6 +566,67 @@ impl Check for PrefixCheck {
                         check_view_range(st.as_ref(), &model, p, None, None, k.0.len() % 2 == 0, "the mutable view object right after a remove through it")?;
                     }
                     check_raw(&app, &model, "after remove through a view")?;
+                }
+                Op::Fill(v, n, from) => {
+                    let p = &prefixes[*v];
+                    let all = small_keys();
+                    let (from, n) = ((*from).min(all.len()), (*n).min(all.len()));
+                    let chosen: Vec<Vec<u8>> = all.iter().skip(from).take(n).cloned().collect();
+                    {
+                        let mut st = open_rw(&mut app, &case.paths[*v], case.single[*v]);
+                        for (i, k) in chosen.iter().enumerate() {
+                            let val = vec![1 + (i % 250) as u8];
+                            st.set(k, &val);
+                            let mut rk = p.clone();
+                            rk.extend_from_slice(k);
+                            model.insert(rk, val);
+                        }
+                        check_view_range(st.as_ref(), &model, p, None, None, false, "the mutable view object after many sets through it")?;
+                        check_view_range(st.as_ref(), &model, p, None, None, true, "the mutable view object after many sets through it")?;
+                    }
+                    for (s, e, desc) in [(None, None, false), (Some(&[0x00u8][..]), None, false), (Some(&[0x61u8][..]), Some(&[0xFFu8, 0xFF][..]), false), (None, Some(&[0x61u8, 0x61][..]), true)] {
+                        let st = open_ro(&app, &case.paths[*v], case.single[*v]);
+                        check_view_range(st.as_ref(), &model, p, s, e, desc, "read-only view of a well-filled namespace")?;
+                    }
+                    check_raw(&app, &model, "after many sets through a view")?;
+                    cx.label("fill");
+                    if ref_view(&model, p).len() > 32 {
+                        cx.label("view:more-than-32-entries");
+                    }
+                }
+                Op::Session(v, ro, steps) => {
+                    let p = &prefixes[*v];
+                    let mut st = if *ro { open_ro(&app, &case.paths[*v], case.single[*v]) } else { open_rw(&mut app, &case.paths[*v], case.single[*v]) };
+                    for (i, step) in steps.iter().enumerate() {
+                        let what = format!("step {} of a session on one {} view object", i, if *ro { "read-only" } else { "mutable" });
+                        match step {
+                            Step::Get(k) => {
+                                let mut rk = p.clone();
+                                rk.extend_from_slice(&k.0);
+                                let (got, want) = (st.get(&k.0), model.get(&rk).cloned());
+                                ensure!(got == want, "C07:get-mismatch", "{}: get({}) = {:?}, base holds {:?}", what, hexs(&k.0), got.as_deref().map(hexs), want.as_deref().map(hexs));
+                            }
+                            Step::Set(k, val) if !*ro && !val.0.is_empty() => {
+                                let mut rk = p.clone();
+                                rk.extend_from_slice(&k.0);
+                                st.set(&k.0, &val.0);
+                                model.insert(rk, val.0.clone());
+                            }
+                            Step::Remove(k) if !*ro => {
+                                let mut rk = p.clone();
+                                rk.extend_from_slice(&k.0);
+                                st.remove(&k.0);
+                                model.remove(&rk);
+                            }
+                            Step::Range(s, e, desc) => {
+                                check_view_range(st.as_ref(), &model, p, s.as_ref().map(|x| x.0.as_slice()), e.as_ref().map(|x| x.0.as_slice()), *desc, &what)?;
+                            }
+                            _ => {}
+                        }
+                    }
+                    drop(st);
+                    check_raw(&app, &model, "after a session on one view object")?;
+                    cx.label("session");
                 }
                 Op::Range { view, ro, start, end, desc } => {
                     let p = &prefixes[*view];
